@@ -62,7 +62,12 @@ func TestSim(t *testing.T) {
 		parts := strings.Split(os.Getenv("VERIF_SEEDS"), ":")
 		first, _ := strconv.ParseUint(parts[0], 10, 64)
 		count, _ := strconv.ParseUint(parts[1], 10, 64)
+		deadline, _ := strconv.ParseInt(os.Getenv("VERIF_DEADLINE_UNIX"), 10, 64)
 		for s := first; s < first+count; s++ {
+			if deadline > 0 && time.Now().Unix() >= deadline {
+				emit(map[string]any{"stoppedAt": s})
+				break
+			}
 			emit(map[string]any{"start": s})
 			p := planFor(want[0], s)
 			stop := watchdog(fmt.Sprintf("seed=%d", s))
@@ -132,6 +137,4 @@ func planDigest(p *Plan) string {
 		p.World, p.N, p.Ruleset, p.Crypto, p.Cache, p.Wire, p.Leader, len(p.Byz), len(p.Faults), len(p.Inject), p.UntilMs)
 }
 
-func GenEventLoopPlan(seed uint64) *Plan         { return &Plan{World: "eventloop", Seed: seed} }
 func GenCmdCachePlan(seed uint64) *Plan          { return &Plan{World: "cmdcache", Seed: seed} }
-func GenPuppetPlan(prop string, seed uint64) *Plan { return &Plan{World: "puppet", Seed: seed, Property: prop} }
